@@ -1,8 +1,10 @@
 // C09: generated programs over a pool of Pointset_Powerset<D> objects, D in
-// { C_Polyhedron, NNC_Polyhedron, BD_Shape<mpq_class>, Rational_Box }, each carrying a model
-// (ref::Union = finite union of ref::Sys).  After every step the union of the library's
-// disjuncts (read through the const interface: disjunct.constraints()) is compared with the
-// union computed by the exact reference geometry (no PPL code).
+// { C_Polyhedron, NNC_Polyhedron, BD_Shape<mpq_class>, Rational_Box, Grid }, each carrying a model
+// (ref::Union = finite union of ref::Sys; for grids a vector<rl::Grid>, see GProg below; grid check ids
+// carry the prefix "grid.").  After every step the union of the library's disjuncts (read through the
+// const interface: disjunct.constraints() / congruences()) is compared with the union computed by the
+// exact reference geometry / lattice model (no PPL code).
+// Single-domain variants: bin/c09_powerset@CPOLY, @NNC, @BDS, @BOX, @GRID.
 //
 // Oracles
 //   op.<name>            the union after the operation equals the reference union (element-wise
@@ -737,8 +739,17 @@ struct GProg {
 
 void vf_case(Ctx& c) {
   int dom = c.t.weighted({26, 26, 16, 16, 16});
-#ifdef VF_ONLY
-  dom = VF_ONLY;
+  // single-domain variants: bin/c09_powerset@CPOLY, @NNC, @BDS, @BOX, @GRID
+#if defined(VF_CPOLY)
+  dom = 0;
+#elif defined(VF_NNC)
+  dom = 1;
+#elif defined(VF_BDS)
+  dom = 2;
+#elif defined(VF_BOX)
+  dom = 3;
+#elif defined(VF_GRID)
+  dom = 4;
 #endif
   if (dom == 0) { Prog<C_Polyhedron> p(c); p.run(); }
   else if (dom == 1) { Prog<NNC_Polyhedron> p(c); p.run(); }
